@@ -307,3 +307,26 @@ class BinaryMatrixRankImplClasses:
   total = True
   total_props = ["C12"]
   props = ["C12"]
+
+
+# C19, lattice_suite.Bias: the integer part of the statistic.  Every (sample, transform) pair contributes the distance of
+# a*s + b to the closest multiple of n, and the Irwin-Hall CDF is evaluated for as many summands as there are pairs.
+L_ = "paranoid_crypto/lib/randomness_tests/lattice_suite.py"
+impl(f"{U}::UniformSumCdf", {"n": "int", "x": "opaque"})
+
+
+@contract(f"{L_}::Bias#integer")
+class BiasInteger:
+  params = {"sample": "list[int]", "n": "int", "transforms": "list[tuple[int,int]]"}
+  returns = "opaque"
+  requires = ["n >= 1"]
+  loops = {0: dict(invariant=["t >= 0"]),
+           1: dict(invariant=["t >= 0"],
+                   body_end=[("C19", "0 <= v and 2 * v <= n"),
+                             ("C19", "divmod_def(a * s + b, n)"),
+                             ("C19", "v == (a * s + b) % n or v == n - (a * s + b) % n"),
+                             # v is the distance of x = a*s + b to a multiple of n (below or above); with 2v <= n the closest
+                             ("C19", "a * s + b - v == n * idiv(a * s + b, n) or a * s + b + v == n * (idiv(a * s + b, n) + 1)"),
+                             ("C19", "t == pre_t + v")])}
+  on_call = {f"{U}::UniformSumCdf": ["assert [C19] args[0] == len(sample) * len(transforms)"]}
+  props = ["C19"]
